@@ -165,6 +165,33 @@ func contentious(r *rand.Rand, powers []int64, chain int) [][]appTx {
 	return [][]appTx{b1, b2}
 }
 
+// attested: a message is scheduled, relayed, and evidence with ONE proof arrives from validators holding at least 2/3 of
+// the stake: the consensus EndBlocker attests it, the evm keeper reports it to its listeners (metrix writes the relayer's
+// history), metrix recomputes the relay metrics at the next height divisible by 10.
+func attested(r *rand.Rand, powers []int64, chain int) [][]appTx {
+	total := int64(0)
+	for _, p := range powers {
+		total += p
+	}
+	var set []int
+	sum := int64(0)
+	for _, v := range r.Perm(len(powers)) {
+		set = append(set, v)
+		sum += powers[v]
+		if 3*sum >= 2*total && r.Intn(2) == 0 {
+			break
+		}
+	}
+	proof := []string{"e1", "tx:garbage"}[r.Intn(2)]
+	b1 := []appTx{{Msgs: []appMsg{{Kind: "slc", Chain: chain, Data: "attested"}}}}
+	b2 := []appTx{{Msgs: []appMsg{{Kind: "estimate", Val: set[0], Chain: chain, Msg: -1, Gas: 21000}}},
+		{Msgs: []appMsg{{Kind: "pubdata", Val: set[0], Chain: chain, Msg: -1, Data: "txhash", Gas: 1}}}}
+	for _, v := range set {
+		b2 = append(b2, appTx{Msgs: []appMsg{{Kind: "evidence", Val: v, Chain: chain, Msg: -1, Data: proof}}})
+	}
+	return [][]appTx{b1, b2}
+}
+
 func genAppScript(run *emit.Run, nBlocks int) *appScript {
 	r := run.Rng
 	nv := 4 + r.Intn(6)
@@ -239,6 +266,7 @@ func genAppScript(run *emit.Run, nBlocks int) *appScript {
 	}
 	phase1 := nBlocks * 2 / 3
 	cont := contentious(r, g.Powers, r.Intn(g.NChains))
+	att := attested(r, g.Powers, r.Intn(g.NChains))
 	for i := 0; i < phase1; i++ {
 		txs := randTxs()
 		if i == 1 {
@@ -246,6 +274,12 @@ func genAppScript(run *emit.Run, nBlocks int) *appScript {
 		}
 		if i == 2 {
 			txs = append(cont[1], txs...)
+		}
+		if i == 3 {
+			txs = append(txs, att[0]...)
+		}
+		if i == 4 {
+			txs = append(att[1], txs...)
 		}
 		add(txs)
 		step()
@@ -327,7 +361,29 @@ func corpusAppScripts() []*appScript {
 			{Height: 5, Time: 1_700_000_103, Txs: []appTx{{Msgs: []appMsg{{Kind: "slc", Data: "t"}}}}},
 		},
 	}
-	return []*appScript{a, b, c, d}
+	// (5) seeded C08-E: a relayed message is attested at height 3 (evidence from 3 of 4 equal validators): metrix writes
+	// the relayer's history; the relay metrics are recomputed at height 10.  A node restarted in between must recompute
+	// the same.  (6) seeded C08-F: status updates of every level in one block.
+	e := &appScript{
+		Genesis: appGenesis{Powers: []int64{10, 10, 10, 10}, NChains: 1, Fees: [][]string{{"1.0"}, {"2.0"}, {"2.0"}, {"2.0"}},
+			Traits: [][]string{nil, nil, nil, nil}, Weights: [5]string{"1.0", "0", "0", "0", "0"}},
+		Blocks: []appBlock{
+			{Height: 2, Time: 1_700_000_100, Txs: []appTx{{Msgs: []appMsg{{Kind: "slc", Data: "p"}}}}},
+			{Height: 3, Time: 1_700_000_102, Txs: []appTx{
+				{Msgs: []appMsg{{Kind: "estimate", Val: 0, Msg: -1, Gas: 21000}}},
+				{Msgs: []appMsg{{Kind: "pubdata", Val: 0, Msg: -1, Data: "txhash", Gas: 1}}},
+				{Msgs: []appMsg{{Kind: "evidence", Val: 0, Msg: -1, Data: "e1"}}},
+				{Msgs: []appMsg{{Kind: "evidence", Val: 1, Msg: -1, Data: "e1"}}},
+				{Msgs: []appMsg{{Kind: "evidence", Val: 2, Msg: -1, Data: "e1"}}}}},
+			{Height: 4, Time: 1_700_000_104, Restart: true, Txs: []appTx{
+				{Msgs: []appMsg{{Kind: "status", Data: "dbg", Level: 0}}}, {Msgs: []appMsg{{Kind: "status", Data: "inf", Level: 1}}},
+				{Msgs: []appMsg{{Kind: "status", Data: "boom", Level: 2}}}}},
+			{Height: 10, Time: 1_700_000_116, Txs: nil},
+			{Height: 11, Time: 1_700_000_118, Txs: []appTx{{Msgs: []appMsg{{Kind: "slc", Data: "q"}}}}},
+			{Height: 20, Time: 1_700_000_136, Restart: true, Txs: nil},
+		},
+	}
+	return []*appScript{a, b, c, d, e}
 }
 
 // ---- parent side ----
@@ -351,7 +407,9 @@ func runAppChild(dir string, sc *appScript, e twinEnv, tag string) ([]blockOut, 
 	if e.Extra {
 		env = append(env, "C08_EXTRA=1")
 	}
-	if e.Restart {
+	if e.RestartAll {
+		env = append(env, "C08_RESTART=all")
+	} else if e.Restart {
 		env = append(env, "C08_RESTART=1")
 	}
 	env = append(env, flagEnv(e)...)
@@ -491,7 +549,13 @@ func checkApp(t *testing.T, run *emit.Run, dir, tag string, sc *appScript, envs 
 			reported = true
 		}
 	}
-	for k := 1; k < len(outs) && !reported; k++ {
+	// twin divergence: one report for the first diverging twin that did extra node-local work (simulations, phantom
+	// blocks, queries), one for the first diverging twin that did none but was RESTARTED — different causes
+	reportedClass := map[bool]bool{}
+	for k := 1; k < len(outs); k++ {
+		if reportedClass[envs[k].Extra] || (reported && envs[k].Extra) {
+			continue
+		}
 		for d := range outs[0] {
 			if outs[0][d].key() == outs[k][d].key() {
 				continue
@@ -512,7 +576,7 @@ func checkApp(t *testing.T, run *emit.Run, dir, tag string, sc *appScript, envs 
 			run.Violate("C08:app-twin-divergence:"+field, fmt.Sprintf("same block history, different %s at block %d (height %d) between environments %s and %s: %v vs %v",
 				field, d, outs[0][d].Height, envs[0].Name, envs[k].Name, outs[0][d], outs[k][d]),
 				map[string]any{"history": min, "envs": pair, "diverges_at_block": len(min.Blocks) - 1, "outputs_of_unshrunk_history": []blockOut{outs[0][d], outs[k][d]}})
-			reported = true
+			reportedClass[envs[k].Extra] = true
 			break
 		}
 	}
